@@ -140,7 +140,9 @@ Definition reorder_sets_model (pq_tree : list (list nat) -> option (list (list n
 (* the contract of reorder_sets, as a checker and a reference decider (for the direct contract test):
    result is a rearrangement of the family in which, for every element, the sets containing it are consecutive *)
 Definition countk (k : list nat) (l : list (list nat)) : nat := length (filter (lnat_eqb k) l).
+Definition sets_consec (F result : list (list nat)) : bool :=
+  forallb (fun v => contig01 (map (memn v) result)) (nodup Nat.eq_dec (concat F)).
 Definition sets_check (F result : list (list nat)) : bool :=
-  forallb (fun k => countk k F =? countk k result) (F ++ result) &&
-  forallb (fun v => contig01 (map (memn v) result)) (concat F).
-Definition sets_decide (F : list (list nat)) : bool := existsb (sets_check F) (perms F).
+  forallb (fun k => countk k F =? countk k result) (F ++ result) && sets_consec F result.
+(* the enumeration only needs the contiguity test: its candidates are permutations of F by construction *)
+Definition sets_decide (F : list (list nat)) : bool := existsb (sets_consec F) (perms F).
